@@ -20,7 +20,12 @@ Oracle : (independent of the model) payloads tagged with their circuit leave onl
          and change neither tables nor request caches;
          a create under an id that is live in any table (relay id, exit id - also after the 60 s cache expired -,
          own circuit id) replaces nothing and the old circuit keeps working; a destroy removes an entry iff it is
-         correctly signed by the neighbour stored for that id (matrix id x sender x signature x table role); when a
+         correctly signed by the neighbour stored for that id (matrix id x signer {adjacent, member, outsider, a stranger with a
+         key of its own} x signature {valid, broken, key substituted} x table role x source address {the signer's own; for the
+         stranger's validly signed destroys also the adjacent hop's exact address (spoofed) and its IP on another port}); a
+         forged plaintext created at the originator of a half-built circuit with another identifier, or with a well-sized key
+         that does not verify, of the wrong size or all zero, from the first hop's address or an unrelated host, changes nothing
+         (entry, state, verified / unverified hops, retry cache) and the genuine answer afterwards still completes the hop; when a
          third party's create under the same id is dispatched back-to-back with a genuine create (no event-loop
          turn in between, both orders, first hop and extend hop) the entry made for the first one is not replaced,
          only the first sender gets a created, and the genuine circuit still carries data both ways; after a
@@ -414,6 +419,25 @@ async def circuit_alive(tn, c, r):
     return any(rec[0] == "exit" and rec[2] == data for rec in tn.trace[mark:])
 
 
+class Stranger:
+    """a third party with a key of its own that no node has ever seen (not a member of the overlay's peer tables): it can
+    sign anything validly under ITS key, and put any source address on its datagrams"""
+
+    def __init__(self, tn, address=("198.51.100.23", 7777)):
+        from ipv8.keyvault.crypto import default_eccrypto
+        from ipv8.peer import Peer
+        self._ov = tn.origin
+        self.my_peer = Peer(default_eccrypto.generate_key("curve25519"), address)
+        self._verif_name = "stranger"
+
+    def ezr_pack(self, msg_num, *payloads):
+        from ipv8.keyvault.crypto import default_eccrypto
+        from ipv8.messaging.payload_headers import BinMemberAuthenticationPayload
+        pkt = self._ov._ez_pack(self._ov._prefix, msg_num,
+                                [BinMemberAuthenticationPayload(self.my_peer.public_key.key_to_bin()), *payloads], sig=False)
+        return pkt + default_eccrypto.create_signature(self.my_peer.key, pkt)
+
+
 def forged_destroy(tn, signer, cid, reason=1, sig="ok", claim=None):
     from ipv8.messaging.anonymization.payload import DestroyPayload
     pkt = signer.ezr_pack(DestroyPayload.msg_id, DestroyPayload(cid, reason))
@@ -427,7 +451,11 @@ def forged_destroy(tn, signer, cid, reason=1, sig="ok", claim=None):
 
 
 async def destroy_matrix(ctx, tn, loop, book, r):
-    """id x sender x signature against every table role, on a 3-hop circuit sharing relays with another circuit"""
+    """id x signer x signature x source address against every table role, on a 3-hop circuit sharing relays with another
+    circuit.  Signers: the adjacent node, another member of the circuit, a node outside it, a stranger (a key no node has
+    seen).  Source address: the signer's own; for destroys validly signed by the stranger's OWN key also the adjacent
+    hop's exact address (spoofed) and its IP with another port - an entry may disappear only through a destroy signed by
+    the key of the node stored for that id (destroy_only_adjacent), never because of where a datagram claims to come from."""
     n_cases = 0
     removing = []
     c, c2 = (await build(tn, [3, 2]) + [None, None])[:2]
@@ -443,9 +471,11 @@ async def destroy_matrix(ctx, tn, loop, book, r):
     r1, r2, ex = path[0][0], path[1][0], path[2][0]
     ida, idb, idc = path[0][1], path[1][1], path[2][1]     # id on link O-R1, R1-R2, R2-E
     outsider = next(ov for ov in tn.nodes.values() if ov not in (o, r1, r2, ex))
+    stranger = Stranger(tn)
     # (target node, table role, id, adjacent sender, other members of the circuit)
     targets = [(r1, "relay-in", ida, o, [r2, ex]), (r1, "relay-out", idb, r2, [o, ex]),
-               (r2, "relay-in", idb, r1, [o, ex]), (ex, "exit", idc, r2, [o, r1]), (o, "circuit", ida, r1, [r2, ex])]
+               (r2, "relay-in", idb, r1, [o, ex]), (r2, "relay-out", idc, ex, [o, r1]),
+               (ex, "exit", idc, r2, [o, r1]), (o, "circuit", ida, r1, [r2, ex])]
     other_id = {r1: [x[1] for x in p2 if x[0] is r1], r2: [x[1] for x in p2 if x[0] is r2], ex: [x[1] for x in p2 if x[0] is ex],
                 o: [c2.circuit_id]}
 
@@ -465,24 +495,34 @@ async def destroy_matrix(ctx, tn, loop, book, r):
 
     plan = []
     for node, role, cid, adj, members in targets:
-        for sender_kind, signer in [("adjacent", adj)] + [("member", m) for m in members[:1]] + [("outsider", outsider)]:
+        for sender_kind, signer in [("adjacent", adj)] + [("member", m) for m in members[:1]] + [("outsider", outsider),
+                                                                                                  ("stranger", stranger)]:
             for sig in ("ok", "bad", "substituted"):
                 for idk in ("own", "other", "unknown"):
                     if idk == "other" and not other_id.get(node):
                         continue
-                    plan.append((node, role, cid, adj, sender_kind, signer, sig, idk))
+                    plan.append((node, role, cid, adj, sender_kind, signer, sig, idk, "own-address"))
+                    if sender_kind == "stranger" and sig == "ok" and idk != "unknown":
+                        # a third party signs with its OWN key (valid signature) and spoofs where the datagram comes from
+                        plan.append((node, role, cid, adj, sender_kind, signer, sig, idk, "adjacent-address"))
+                        plan.append((node, role, cid, adj, sender_kind, signer, sig, idk, "adjacent-ip-other-port"))
     # non-removing combinations first, the legitimate ones last (each breaks the circuit)
-    legit = [p for p in plan if p[4] == "adjacent" and p[6] == "ok" and p[7] == "own"]
-    rest = [p for p in plan if p not in legit]
-    for node, role, cid, adj, sender_kind, signer, sig, idk in rest:
+    legit = [p[:8] for p in plan if p[4] == "adjacent" and p[6] == "ok" and p[7] == "own"]
+    rest = [p for p in plan if p[:8] not in legit]
+    for node, role, cid, adj, sender_kind, signer, sig, idk, srck in rest:
         use = cid if idk == "own" else (other_id[node][0] if idk == "other" else r.getrandbits(32))
         if sig == "ok" and neigh.get((node, use)) is signer:
             continue      # on shared relays a member of one circuit can be the stored neighbour of another: legitimate
+        stored = neigh.get((node, use), adj)          # the node whose key is stored for the id named in the destroy
+        sa = tuple(stored.my_peer.address)
+        src = {"own-address": tuple(signer.my_peer.address), "adjacent-address": sa,
+               "adjacent-ip-other-port": (sa[0], 1024 + (sa[1] + 11) % 60000)}[srck]
         pkt = forged_destroy(tn, signer, use, 1, sig, claim=adj if signer is not adj else outsider)
         before = entry_ids(tn)
-        meta = {"kind": "destroy", "role": role, "sender": sender_kind, "sig": sig, "id": idk,
-                "what": "destroy for %s id (%s) at a %s entry, sent by %s, signature %s" % (idk, use, role, sender_kind, sig)}
-        ev = await tn.event(tuple(signer.my_peer.address), tuple(node.my_peer.address), pkt)
+        meta = {"kind": "destroy", "role": role, "sender": sender_kind, "sig": sig, "id": idk, "source": srck,
+                "what": "destroy for %s id (%s) at a %s entry, signed by %s (signature %s), source address: %s" % (
+                    idk, use, role, sender_kind, sig, srck)}
+        ev = await tn.event(src, tuple(node.my_peer.address), pkt)
         evs = [ev]
         await tn.drain_c(evs)
         await tn.tick(loop, 6, evs)
@@ -490,10 +530,11 @@ async def destroy_matrix(ctx, tn, loop, book, r):
         book.add_all(evs, meta)
         after = entry_ids(tn)
         n_cases += 1
-        ctx.count(("destroy", role, sender_kind, sig, idk), nontrivial=True)
+        ctx.count(("destroy", role, sender_kind, sig, idk, srck), nontrivial=True)
         if after != before:
             lost = [(n, t) for n in before for t in range(3) if set(before[n][t]) - set(after[n][t])]
-            ctx.violation("destroy/unauthorised-removal", "%s: entries disappeared at %s" % (meta["what"], lost), meta)
+            key = "destroy/unauthorised-removal" if srck == "own-address" else "destroy/unauthorised-removal-source-%s" % srck
+            ctx.violation(key, "%s: entries disappeared at %s" % (meta["what"], lost), meta)
             return n_cases
     for node, role, cid, adj, sender_kind, signer, sig, idk in legit:
         if not present(node, role, cid):
@@ -973,6 +1014,81 @@ async def forged_known_id_matrix(ctx, tn, book, r, circuits):
     return n
 
 
+async def half_built(ctx, loop, r, only=None):
+    """forged plaintext CREATED messages at the ORIGINATOR of a circuit that is still extending (no verified hop / one
+    verified hop with the extend under way): identifier {the pending one, another} x key {32 arbitrary bytes, 32 zero bytes,
+    31 bytes} x source {first hop, unrelated host}.  None of them comes from a holder of the key the originator is
+    waiting for, so none may change anything: the circuit's entry, its state, its verified hops, the unverified hop and
+    the retry cache stay as they are, and the genuine answer arriving afterwards still completes the hop.  (Oracle only:
+    the originator's side of the handshake is C08's model, not M05_isolation's.)"""
+    import struct
+    from ipv8.messaging.anonymization.caches import RetryRequestCache
+    from ipv8.messaging.anonymization.payload import CellPayload, CreatedPayload
+    n = 0
+    for verified in (0, 1):
+        for ident_kind in ("pending", "other"):
+            for key_kind in ("32-bytes-unverifiable", "32-zero-bytes", "31-bytes"):
+                for src_kind in ("first-hop", "unrelated-host"):
+                    if only is not None and any(only.get(k) not in (None, v) for k, v in (
+                            ("verified_hops", verified), ("identifier", ident_kind), ("key", key_kind), ("source", src_kind))):
+                        continue
+                    key = {"32-bytes-unverifiable": bytes(r.randrange(1, 256) for _ in range(32)), "32-zero-bytes": bytes(32),
+                           "31-bytes": bytes(31)}[key_kind]
+                    tn = CNet(n_relays=3, n_exits=2, exit_flags=(2, 4, 8))
+                    await tn.start()
+                    try:
+                        o = tn.origin
+                        c = o.create_circuit(3, exit_flags=[2])
+                        await tn.settle_tasks()
+                        sink = []
+                        for _ in range(30):
+                            if c is None or len(c.hops) >= verified:
+                                break
+                            await tn.drain_c(sink, limit=1)
+                            await tn.settle_tasks()
+                        cache = o.request_cache.get(RetryRequestCache, c.circuit_id) if c is not None else None
+                        if c is None or cache is None or len(c.hops) != verified:
+                            ctx.broke("half-built scenario: no circuit waiting for hop %d" % (verified + 1))
+                            continue
+                        held = list(tn.net.queue)         # the genuine request / answer is still on its way
+                        tn.net.queue.clear()
+                        ident = cache.packet_identifier if ident_kind == "pending" else (cache.packet_identifier + 1 + r.randrange(65534)) % 65536
+                        msg = o.serializer.pack_serializable(CreatedPayload(c.circuit_id, ident, key, bytes(32), b""))[4:]
+                        cell = CellPayload(c.circuit_id, struct.pack("!B", 3) + msg, plaintext=True)
+                        src = tuple(c.hop.address) if src_kind == "first-hop" else ("203.0.113.50", 5000)
+
+                        def snap():
+                            return {"in_table": o.circuits.get(c.circuit_id) is c, "state": c.state, "verified_hops": len(c.hops),
+                                    "unverified_hop": id(c.unverified_hop), "retry_cache": id(o.request_cache.get(RetryRequestCache, c.circuit_id))}
+                        before = snap()
+                        await tn.event(src, tuple(o.my_peer.address), cell.to_bin(o._prefix))
+                        await tn.settle_tasks()
+                        after = snap()
+                        meta = {"kind": "half-built-created", "verified_hops": verified, "identifier": ident_kind, "key": key_kind,
+                                "source": src_kind, "what": "forged plaintext created (identifier: %s, key: %s) from %s at the originator of a "
+                                "circuit with %d verified hop(s)" % (ident_kind, key_kind, src_kind, verified)}
+                        n += 1
+                        ctx.count(("half-built", verified, ident_kind, key_kind, src_kind), nontrivial=True)
+                        if after != before:
+                            diff = {k: (before[k], after[k]) for k in before if before[k] != after[k] and k in ("in_table", "state", "verified_hops")}
+                            diff.update({k: "changed" for k in before if before[k] != after[k] and k in ("unverified_hop", "retry_cache")})
+                            ctx.violation("half-built/changed-by-forged-created", "%s: %s" % (meta["what"], diff), meta)
+                            continue
+                        # the genuine exchange goes on and completes this hop
+                        tn.net.queue.extend(held)
+                        for _ in range(12):
+                            if len(c.hops) > verified or c.circuit_id not in o.circuits:
+                                break
+                            await tn.drain_c(sink, limit=1)
+                            await tn.settle_tasks()
+                        if len(c.hops) != verified + 1 or o.circuits.get(c.circuit_id) is not c:
+                            ctx.violation("half-built/genuine-answer-no-longer-accepted", "%s: afterwards the genuine answer does not complete hop %d "
+                                          "(verified hops %d, state %s)" % (meta["what"], verified + 1, len(c.hops), c.state), meta)
+                    finally:
+                        await tn.stop()
+    return n
+
+
 def evaluate(ctx, tn, book, label):
     cases = book.cases
     if not cases:
@@ -1102,6 +1218,8 @@ async def _run(ctx, loop):
     finally:
         await tn.stop()
     evaluate(ctx, tn, book, "destroy")
+    # ---- 4: forged plaintext created at a half-built circuit (oracle only)
+    stats["half_built"] = await half_built(ctx, loop, r)
     ctx.extra["scenario_counts"] = stats
 
 
@@ -1162,6 +1280,8 @@ async def replay_case(case, loop):
             await shared_exit(ctx, tn, loop, book, r)
         elif kind == "destroy":
             await destroy_matrix(ctx, tn, loop, book, r)
+        elif kind == "half-built-created":
+            await half_built(ctx, loop, r, only=case)
         else:
             cs = await build(tn, [1, 2, 3])
             for i in range(5):
@@ -1226,5 +1346,8 @@ def run(ctx):
                             "relay-in / relay-out / exit / own-circuit ids within and after the 60 s cache; same-id creates dispatched back-to-back with a genuine create "
                             "(first hop / extend hop x both orders); re-extended circuit + stale / unknown / duplicate created; 10 (thorough 60) rounds of 2-3 circuits of different originators at one "
                             "exit with delayed transport opening interleaved with first packets + outside replies; destroy matrix {own, other, unknown id} x {adjacent, "
-                            "other member, outsider} x {signature ok, bad, key substituted} x {relay-in, relay-out, exit, circuit} + the legitimate destroys; "
+                            "other member, outsider, stranger with its own key} x {signature ok, bad, key substituted} x {relay-in, relay-out, exit, circuit} x source "
+                            "address {own; stranger + valid signature: adjacent hop's address spoofed, its IP on another port} + the legitimate destroys; "
+                            "forged plaintext created at the originator of a half-built circuit (0 / 1 verified hops) x identifier {pending, other} x key "
+                            "{32 bytes unverifiable, 32 zero bytes, 31 bytes} x source {first hop, unrelated}, then the genuine answer; "
                             "every delivered datagram / timer advance is one lockstep case; distinct = distinct scenario parameters")
